@@ -44,17 +44,31 @@ META = {
 }
 
 
+# the category under which the recordings are made and looked up: fixed for the grid, tape-chosen beyond it (category text is
+# the caller's: it may hold blanks and the characters date formats and key templates give a meaning to)
+CAT = ['OpA']
+CATEGORIES = ['OpA', 'OpA', 'Op A', '50%Done', 'cpu%Mem', 'q=a%20b', '%%', '{0}', 'Op{A}']
+
+
+def choose_category(tape, run):
+    CAT[0] = tape.choice(CATEGORIES)
+    if CAT[0] != 'OpA':
+        run.probe('category_with_special_characters')
+    run.ev('category', CAT[0])
+    run.say('category %r' % CAT[0])
+
+
 def populate(clock, store, instants, tape=None):
     cas = store.open()
     out = []
     for n, t in enumerate(instants):
         clock.set(t)
-        for cat in (['OpA', 'OpAB'] if n % 4 == 0 else ['OpA']):
+        for cat in ([CAT[0], CAT[0] + 'B'] if n % 4 == 0 else [CAT[0]]):
             r = cas.create_new_recording(cat)
             r.set_data('k', n)
             r.add_metadata({'n': n})
             cas.save_recording(r)
-            if cat == 'OpA':
+            if cat == CAT[0]:
                 out.append((t.replace(microsecond=0), r.id))
     return out
 
@@ -66,7 +80,7 @@ def interleaved_windows(run, tape, cas, recs, windows, now):
     its, got, failed = [], [[] for _ in windows], {}
     for n, (a, b) in enumerate(windows):
         try:
-            its.append(iter(cas.iter_recording_ids('OpA', start_date=a, end_date=b)))
+            its.append(iter(cas.iter_recording_ids(CAT[0], start_date=a, end_date=b)))
         except Exception as ex:
             its.append(None)
             failed[n] = ex
@@ -95,7 +109,7 @@ def check_window(run, cas, recs, start, end, now, label, random_results=False, g
             run.probe('random_order_window')
             label += ' (random order)'
         if got is None:
-            got = list(cas.iter_recording_ids('OpA', start_date=start, end_date=end, random_results=random_results, limit=limit))
+            got = list(cas.iter_recording_ids(CAT[0], start_date=start, end_date=end, random_results=random_results, limit=limit))
     except Exception as ex:
         run.violate('window_exact', 'lookup-raised:%s' % type(ex).__name__, '%s window %s .. %s raised %r' % (label, start, end, ex))
         return
@@ -128,6 +142,7 @@ def check_window(run, cas, recs, start, end, now, label, random_results=False, g
 
 def table_start(tape, clock, tier):
     run = Run(PROP)
+    CAT[0] = 'OpA'
     g = grid(tier)
     i = tape.draw(len(g))
     store = C.Store('s3', key_prefix=tape.choice(['a', '', 'a/b']), clock=clock, page_size=tape.choice([1000, 2]))
@@ -161,6 +176,7 @@ def table_start(tape, clock, tier):
 
 def random_windows(tape, clock):
     run = Run(PROP)
+    choose_category(tape, run)
     store = C.Store('s3', key_prefix=tape.choice(['a', '', 'ab']), clock=clock, page_size=tape.choice([1000, 1, 2]))
     store.ia_kb = tape.choice([None, None, 0.001])
     try:
@@ -213,6 +229,7 @@ def long_lived(tape, clock):
     """One reader cassette object lives through the whole history while the clock crosses midnights: the same
     open-ended lookup is repeated after every save."""
     run = Run(PROP)
+    choose_category(tape, run)
     store = C.Store('s3', key_prefix=tape.choice(['a', '', 'ab']), clock=clock, page_size=tape.choice([1000, 2]))
     try:
         now = T0 + datetime.timedelta(hours=tape.draw(24))
@@ -225,7 +242,7 @@ def long_lived(tape, clock):
         for step in range(4 + tape.draw(10)):
             now = now + datetime.timedelta(hours=tape.choice([1, 5, 11, 23, 30]), minutes=tape.choice([0, 17]))
             clock.set(now)
-            r = writer.create_new_recording('OpA')
+            r = writer.create_new_recording(CAT[0])
             r.set_data('k', step)
             r.add_metadata({'n': step})
             writer.save_recording(r)
